@@ -48,11 +48,12 @@ HessOf(kind, n) ==   \* integer symmetric matrices
        [] kind = "indef" -> IF a = b THEN (IF a % 2 = 1 THEN 2 ELSE -3) ELSE 0
        [] kind = "sing"  -> IF a = b /\ a = 1 THEN 2 ELSE 0
        [] kind = "dense" -> IF a = b THEN 3 ELSE 1
-       [] kind = "dind"  -> IF a = b THEN 1 ELSE 2 ]]
-HKinds == {"zero", "pd", "nd", "indef", "sing", "dense", "dind"}
+       [] kind = "dind"  -> IF a = b THEN 1 ELSE 2
+       [] kind = "dmix"  -> IF a = b THEN (IF a = 1 THEN 0 ELSE IF a = n THEN -2 ELSE 1) ELSE 1 ]]
+HKinds == {"zero", "pd", "nd", "indef", "sing", "dense", "dind", "dmix"}
 
 \* radius in units of 1/8: inside the narrowest box, comparable, containing every finite box
-Deltas == {1, 16, 1024}
+Deltas == {1, 16, 1024}          \* (some universes add 8 and 32)
 Scales == {-20, 0, 20}           \* power-of-two exponent applied to all lengths
 
 RECURSIVE SumTo(_, _)
@@ -111,6 +112,12 @@ Inst(n, g, bp, hk, delta, sc, tcg, rows, eqs) ==
       cauchy |-> IF BoxInside(g, bd, delta) /\ rows = "none" /\ eqs = "none"
                  THEN CauchyDecrease(g, H, bd) ELSE <<-1, 1>>]
 
+\* instances of the normal subproblem with explicit integer rows (right-hand sides in halves)
+InstN(n, bp, delta, sc, tcg, aub, bub2, aeq, beq2) ==
+  [Inst(n, [i \in 1..n |-> 0], bp, "zero", delta, sc, tcg, "explicit", "explicit")
+     EXCEPT !.rows = "explicit", !.eqs = "explicit"] @@
+  [xaub |-> aub, xbub2 |-> bub2, xaeq |-> aeq, xbeq2 |-> beq2]
+
 Vecs(n, S) == [1..n -> S]
 RowKinds == {"none", "inactive", "active", "dup", "parallel", "rankdef", "violated", "poly", "wedge"}
 EqKinds  == {"none", "one", "dup"}
@@ -145,6 +152,15 @@ UniverseP(id) ==
     [] id = "lin2p" -> {Inst(2, g, bp, hk, d, sc, TRUE, rows, "none") :
                         g \in Vecs(2, {-2, -1, 1}), bp \in Vecs(2, {"box1", "half", "wide", "inf", "lonear"}),
                         hk \in HKinds, d \in {8, 16}, sc \in {0, 20}, rows \in {"poly", "wedge"}}
+    [] id = "nrm2" -> {InstN(2, bp, d, 0, tcg, <<r1, r2>>, <<b1, b2>>, <<e>>, <<be>>) :
+                        bp \in {<<"inf", "inf">>, <<"wide", "wide">>, <<"lo0", "inf">>},
+                        d \in {8, 1024}, tcg \in BOOLEAN,
+                        r1 \in {<<3, -1>>, <<1, 2>>, <<-2, 1>>}, r2 \in {<<-1, 1>>, <<2, 3>>, <<1, -3>>},
+                        b1 \in {-1, -5, 2}, b2 \in {-5, -2, 3},
+                        e \in {<<-5, 1>>, <<1, 1>>, <<2, -3>>}, be \in {-2, 1, 4}}
+    [] id = "bd3r" -> {Inst(3, g, bp, hk, d, 0, TRUE, "none", "none") :
+                        g \in Vecs(3, {-2, -1, 1}), bp \in Vecs(3, {"box1", "half", "lonear", "wide", "narrow"}),
+                        hk \in {"dind", "dmix", "indef", "dense", "nd"}, d \in {16, 32}}
     [] OTHER -> Universe(id)
 
 Emit == IF "UNIVERSE_OUT" \in DOMAIN IOEnv
